@@ -168,7 +168,7 @@ def check(run):
     run.corpus(impl, spec)
     rng = run.rng
     grid = run.scale(4, 5)
-    rings = simple_rings(rng, grid, (3, 4, 5) if run.quick else (3, 4, 5, 6), run.scale(60, 400))
+    rings = simple_rings(rng, grid, (3, 4, 5) if run.quick else (3, 4, 5, 6), run.scale(60, 180))
     queries = [(F(x, 2), F(y, 2)) for x in range(-1, 2 * grid) for y in range(-1, 2 * grid)]
 
     # 1. constructor normalisation
@@ -185,7 +185,7 @@ def check(run):
     lines = []
     for r in rings:
         qs = queries if not run.quick else rng.sample(queries, 30) + [q for q in queries if q in r][:3]
-        for v in variants(r, rng, not run.quick)[:run.scale(2, 12)]:
+        for v in variants(r, rng, not run.quick)[:run.scale(2, 6)]:
             closed = v + [v[0]]
             for q in qs:
                 lines.append(f'pip.ring {rat(q[0])} {rat(q[1])} ' + flat(closed))
@@ -201,6 +201,8 @@ def check(run):
                  [(F(5), F(5)), (F(7), F(5)), (F(6), F(7))],
                  [(F(4), F(1)), (F(7), F(2)), (F(5), F(2)), (F(5), F(4))],
                  [(F(1), F(5)), (F(2), F(4)), (F(3), F(5)), (F(2), F(6))]]
+    # two disjoint triangular holes whose bounding boxes overlap (the second one is "behind" the first one's box)
+    interlock = [[(F(1), F(1)), (F(3), F(1)), (F(1), F(3))], [(F(7, 2), F(3, 2)), (F(7, 2), F(7, 2)), (F(3, 2), F(7, 2))]]
     outers = [big, [(F(0), F(0)), (F(8), F(0)), (F(8), F(8)), (F(4), F(7)), (F(0), F(8))],
               [(F(4), F(-1)), (F(9), F(4)), (F(4), F(9)), (F(-1), F(4))]]
     for o in outers:
@@ -210,9 +212,17 @@ def check(run):
     for nh in (0, 1, 2):
         for hs in itertools.combinations(hole_pool, nh):
             shapes.append(('box', [(F(0), F(8)), (F(8), F(0))], list(hs)))
+    for o in outers[:2]:
+        shapes.append(('poly', o, interlock))
+        shapes.append(('poly', o, interlock[::-1]))
+    shapes.append(('box', [(F(0), F(8)), (F(8), F(0))], interlock))
+    shapes.append(('box', [(F(0), F(8)), (F(8), F(0))], interlock[::-1]))
     qs = [(F(x, 2), F(y, 2)) for x in range(-3, 20) for y in range(-3, 20)]
+    overlap_qs = [(F(x, 4), F(y, 4)) for x in range(5, 15) for y in range(5, 15)]   # inside both hole boxes
     for kind, o, hs in shapes:
         use = qs if not run.quick else rng.sample(qs, 70)
+        if hs is interlock or hs == interlock[::-1]:
+            use = use + (overlap_qs if not run.quick else rng.sample(overlap_qs, 40))
         for var in (variants(o, rng, False)[:2] if kind == 'poly' else [o]):
             hv = [rng.choice(variants(h, rng, True)) for h in hs]
             txt = f'{kind} {flat(var)}' + ''.join(' h ' + flat(h) for h in hv)
@@ -233,6 +243,20 @@ def check(run):
             for qy in (y0 - F(1, 8), y0, y0 + h / 4, y0 + h / 2, y0 + h * F(3, 8), y0 + h, y0 + h + F(1, 8)):
                 lines.append(f'pip.in {rat(qx)} {rat(qy)} {txt}')
     run.run_cases('boxes-all-relative-positions', lines, impl, spec, tag=classify)
+
+    # 3c. the same geometry at every scale: dyadic scaling / translation keeps all arithmetic exact, so metre-scale
+    #     shapes (vertex spacing ~1e-6 deg) must answer exactly like their grid-scale originals
+    lines = []
+    for r in rng.sample(rings, min(len(rings), run.scale(25, 200))):
+        k = rng.choice([8, 16, 20, 24, 30])
+        sc = F(1, 2 ** k)
+        ox, oy = F(rng.randint(-170, 170)), F(rng.randint(-80, 80))
+        if k >= 24:
+            ox, oy = ox / 64, oy / 64          # keep lon/lat + offset within the 53-bit mantissa
+        ring = [(ox + x * sc, oy + y * sc) for x, y in r]
+        for q in rng.sample(queries, run.scale(12, 40)):
+            lines.append(f'pip.in {rat(ox + q[0] * sc)} {rat(oy + q[1] * sc)} poly {flat(ring)}')
+    run.run_cases('scaled-and-translated', lines, impl, spec, tag=classify)
 
     # 4. random: star-shaped and orthogonal rings up to 12 vertices on a 1/8 grid, queries snapped to vertex
     #    latitudes / longitudes with probability 1/2
